@@ -189,6 +189,8 @@ type Parser struct {
 	prefix    string
 	currFunc  string
 	usedFuncs map[string][]string // Stores which function (key) calls which functions (values).
+
+	importStack []string // Paths of the files whose imports are currently being resolved.
 }
 
 func New() Parser {
@@ -696,6 +698,11 @@ func (p *Parser) evaluateImports(ctx context) ([]Statement, error) {
 				return nil, fmt.Errorf(`an alias must be provided for the local import "%s" in "%s"`, path, p.path)
 			}
 			importParser := New()
+			importParser.importStack = append(slices.Clone(p.importStack), p.path)
+
+			if slices.Contains(importParser.importStack, absPath) {
+				return nil, fmt.Errorf(`import cycle: "%s" imports "%s"`, p.path, absPath)
+			}
 			importedProg, err := importParser.parse(absPath, true)
 
 			if err != nil {
